@@ -10,9 +10,7 @@ def pAnyDeclarator (self : Self) (allowAbstract typeidParenAsAbstract : Bool) : 
   reset m
   if nameType.isNone || (typeidParenAsAbstract && nameType == some "TYPEID" && sawParen) then
     if !allowAbstract then
-      match ← peek with
-      | some tok => parseError "Invalid declarator" (.coord (← tokCoord tok))
-      | none => parseError "Invalid declarator" (← lexFileLoc)
+      parseError "Invalid declarator" (← hereLoc)
     else
       let d ← self .abstractDeclaratorOpt
       pure (d, false)
@@ -280,7 +278,7 @@ def pDirectAbstractDeclarator (self : Self) : P Val := do
         if d.isNone then crash .assertion "decl is not None" else pure d
     | none =>
       if (← peekType) == some "LBRACKET" then self (.arrayDeclCommon emptyTypeDecl none)
-      else parseError "Invalid abstract declarator" (← lexFileLoc))
+      else parseError "Invalid abstract declarator" (← hereLoc))
   self (.declSuffixesLoop decl)
 
 end PycModel
